@@ -107,6 +107,11 @@ def follow_value(body, l, depth=0, seen=None):
                         res[ok_label] = sub["Continue"]
                         if "Break" in sub:
                             res[err_label] = sub["Break"]
+                elif name == "not" and callee_matches(t, r"anyhow::__private::not"):
+                    sub = follow_value(body, t["d"]["l"], depth + 1, seen)
+                    if "true" in sub:
+                        res["true"] = sub["false"]
+                        res["false"] = sub["true"]
                 elif name in ("is_ok", "is_some"):
                     sub = follow_value(body, t["d"]["l"], depth + 1, seen)
                     if "true" in sub:
@@ -267,3 +272,125 @@ def cmp_truth_table(cmp, label_a, label_b):
 
 def origins_text(body, op):
     return sorted({origin_summary(o) for o in trace(body, op)})
+
+
+# ---------------------------------------------------------------------------- ensures (chain dominance)
+
+SUCCESS_LABELS = ("Ok", "Some", "true", "Continue")
+
+
+def success_sites(body):
+    """Blocks where the function's success value is produced: `_0 = Ok/Some{..}`, `_0 = true`,
+    or `_0 = call(..)` (the callee's verdict is returned). from_residual returns are failures."""
+    out = []
+    reach = body.reachable()
+    for bi, b in enumerate(body.blocks):
+        if bi not in reach:
+            continue
+        for si, s in enumerate(b["s"]):
+            if s["k"] == "assign" and s["p"]["l"] == 0 and not s["p"]["p"]:
+                r = s["r"]
+                if r[0] == "agg" and r[1][0] == "adt" and r[1][2] in ("Ok", "Some"):
+                    out.append((bi, "agg", s))
+                elif r[0] == "use" and r[1][0] == "const" and r[1][1].get("val") == 1:
+                    out.append((bi, "true", s))
+                elif r[0] == "use" and r[1][0] in ("copy", "move"):
+                    out.append((bi, "value", s))
+                elif r[0] == "agg" and r[1][0] == "adt" and r[1][2] in ("Err", "None"):
+                    pass
+                elif r[0] == "use" and r[1][0] == "const":
+                    pass
+                else:
+                    out.append((bi, "value", s))
+        t = b["t"]
+        if t["k"] == "call" and t["d"]["l"] == 0 and not t["d"]["p"]:
+            if t["f"].get("name") == "from_residual":
+                continue
+            out.append((bi, "call", t))
+    return out
+
+
+class Ensures:
+    """ensures(F, G): every success return of F implies that a call matching G succeeded
+    (directly in F, or in a callee that itself ensures G). Closures/async blocks: the coroutine
+    body of an `async fn` is looked up as `<path>::{closure#0}`."""
+
+    def __init__(self, facts, guard_regex, depth=4):
+        self.f = facts
+        self.rx = re.compile(guard_regex)
+        self.memo = {}
+        self.depth = depth
+        self.why = {}
+
+    def is_guard_call(self, t, depth):
+        if callee_matches(t, self.rx):
+            return True
+        for p in mir.callee_paths(t):
+            if self.ensures(p, depth - 1):
+                return True
+        return False
+
+    def body_of(self, path):
+        b = self.f.bodies.get(path)
+        if b is None:
+            return None
+        # async fn: the interesting body is the coroutine
+        if b.rec.get("is_async"):
+            c = self.f.bodies.get(path + "::{closure#0}")
+            if c is not None:
+                return c
+        return b
+
+    def ensures(self, path, depth=None):
+        depth = self.depth if depth is None else depth
+        if depth < 0:
+            return False
+        if path in self.memo:
+            return self.memo[path]
+        self.memo[path] = False  # recursion guard
+        b = self.body_of(path)
+        if b is None:
+            return False
+        ok, why = self.ensures_body(b, depth)
+        self.memo[path] = ok
+        self.why[path] = why
+        return ok
+
+    def ensures_body(self, b, depth=None):
+        depth = self.depth if depth is None else depth
+        sites = success_sites(b)
+        if not sites:
+            return False, "no success return recognised"
+        guards = []
+        for bi, t in b.calls():
+            if self.is_guard_call(t, depth):
+                oc = call_outcomes(b, bi)
+                for lab in SUCCESS_LABELS:
+                    if lab in oc:
+                        guards.append((bi, t, oc[lab]))
+        missing = []
+        for bi, how, x in sites:
+            sat = False
+            if how == "call":
+                t = x
+                n = t["f"].get("name")
+                if self.is_guard_call(t, depth):
+                    sat = True
+                elif n in ("is_ok", "is_some") and t["a"]:
+                    for o in trace(b, t["a"][0], through_calls=False):
+                        if o.kind == "call" and self.is_guard_call(o.data, depth):
+                            sat = True
+                elif n in ("map_err", "map", "context", "with_context", "and_then", "into", "from", "ok_or", "ok_or_else") and t["a"]:
+                    for o in trace(b, t["a"][0], through_calls=False):
+                        if o.kind == "call" and self.is_guard_call(o.data, depth):
+                            sat = True
+            if not sat:
+                for gbi, gt, e in guards:
+                    if b.edge_dominates(e[0], e[1], bi):
+                        sat = True
+                        break
+            if not sat:
+                missing.append((bi, how, b.loc(bi)))
+        if missing:
+            return False, "success return at %s is not dominated by a successful guard" % missing[0][2]
+        return True, "all %d success returns dominated" % len(sites)
